@@ -114,6 +114,7 @@ class Env:
         for k in range(tries):
             s = z3.Solver()
             s.set("rlimit", 2_000_000)
+            s.add(*ctx.defs_z3())
             s.add(*ctx.constraints)
             s.add(*ctx.path)
             for j, a in enumerate(syms):
